@@ -33,6 +33,7 @@ partial def loop (h : IO.FS.Stream) (out : IO.FS.Stream) (s : S) : IO Unit := do
   | ["unannounce"] => next .unannounce
   | ["shutdown"] => next .shutdown
   | ["service"] => next .service
+  | ["tickflaky"] => next .tickFlaky
   | _ => out.putStrLn "bad-op"; loop h out s
 
 def avahiMain : IO UInt32 := do
